@@ -22,6 +22,12 @@ type uField struct {
 	Bang     bool // print required as '!' / optional as '?' instead of an attribute
 	Foreign  *[2]string // (package, entity) of a foreign key
 	Optional bool
+	Obj      string // object:<Name> reference to a schema of the package ("" = not a reference)
+}
+
+type eSchema struct {
+	Name   string
+	Fields []uField
 }
 
 type eKey struct {
@@ -70,6 +76,8 @@ type entityDecl struct {
 	Commands  []eCommand
 	Summaries []eSummary
 	Query     *eQuery
+	Schemas   []eSchema // objects declared inside the entity block
+	second    bool      // generated as the second entity of a file
 }
 
 // ---- Coq terms ---------------------------------------------------------------------
@@ -83,7 +91,9 @@ func optBytes(s *string) string {
 
 func (u uField) coq() string {
 	kind := fmt.Sprintf("(KScalar %d %s)", u.PType, vh.BytesTerm(u.J5Kind))
-	if u.Key {
+	if u.Obj != "" {
+		kind = fmt.Sprintf("(KObject %s)", vh.BytesTerm(u.Obj))
+	} else if u.Key {
 		foreign := "None"
 		if u.Foreign != nil {
 			foreign = fmt.Sprintf("(Some (%s, %s))", vh.BytesTerm(u.Foreign[0]), vh.BytesTerm(u.Foreign[1]))
@@ -108,7 +118,7 @@ func (d *entityDecl) coq() string {
 	if d.Query != nil {
 		q = fmt.Sprintf("(Some (mkQ %s %s))", vh.BoolTerm(d.Query.EventsInGet), coqList(d.Query.DefaultStatus, vh.BytesTerm))
 	}
-	return fmt.Sprintf("(mkE %s %s %s %s %s %s %s %s %s %s)",
+	return fmt.Sprintf("(mkE %s %s %s %s %s %s %s %s %s %s %s)",
 		vh.BytesTerm(d.Pkg), vh.BytesTerm(d.Name), vh.BytesTerm(d.BaseURL),
 		coqList(d.Keys, func(k eKey) string { return fmt.Sprintf("(mkK %s %s)", k.uField.coq(), vh.BoolTerm(k.Shard)) }),
 		fieldsCoq(d.Data),
@@ -124,7 +134,8 @@ func (d *entityDecl) coq() string {
 			}))
 		}),
 		coqList(d.Summaries, func(s eSummary) string { return fmt.Sprintf("(mkS %s %s)", vh.BytesTerm(s.Name), fieldsCoq(s.Fields)) }),
-		q)
+		q,
+		coqList(d.Schemas, func(s eSchema) string { return fmt.Sprintf("(%s, %s)", vh.BytesTerm(s.Name), fieldsCoq(s.Fields)) }))
 }
 
 // ---- j5s text ----------------------------------------------------------------------
@@ -132,6 +143,9 @@ func (d *entityDecl) coq() string {
 var verbNames = map[int]string{1: "GET", 2: "POST", 3: "PUT", 4: "DELETE", 5: "PATCH"}
 
 func (u uField) j5sType() string {
+	if u.Obj != "" {
+		return "object:" + u.Obj
+	}
 	if !u.Key {
 		return u.J5Type
 	}
@@ -262,6 +276,13 @@ func (d *entityDecl) block() string {
 			sb.WriteString("\tsummary " + s.Name + " {\n")
 		}
 		for _, f := range s.Fields {
+			printField(&sb, "\t\t", "field", f)
+		}
+		sb.WriteString("\t}\n")
+	}
+	for _, sc := range d.Schemas {
+		sb.WriteString("\tobject " + sc.Name + " {\n")
+		for _, f := range sc.Fields {
 			printField(&sb, "\t\t", "field", f)
 		}
 		sb.WriteString("\t}\n")
